@@ -1,19 +1,20 @@
 CONSTANTS
- ProcSeq <- P2
+ ProcSeq <- P1
  Confs <- SensibleConfs
  Modes = {"tag", "api", "oci"}
  Caches = {0, 1}
  Pages = {0, 1, 2}
  TagDels = {1}
- SubjSel = {"all"}
- MaxOps = 4
- MaxConc = 2
+ SubjSel = {"ror", "split"}
+ MaxOps = 5
+ MaxConc = 1
  SameSubject = TRUE
  MixSameArt = FALSE
  LockPut = TRUE
  LockDel = TRUE
  LockDelEarly = TRUE
  ObsFilters = {"none", "t1", "x"}
+ ListConc = FALSE
  CowIndex = TRUE
 INIT MInit
 NEXT MNext
